@@ -17,12 +17,31 @@ def main():
         if "key" in m.get("fields", []) or m["what"] == "panic":
             w = "%s|%s|%s" % (m["what"], m.get("root"), " ".join(m.get("ops", [])))
             chk.violation(w, "replayed-behaviour-key", m, replay={"kind": "gen-game", "file": p})
+    # direction B: variants differing in exactly one aspect of the identity must differ in key
+    hb = vlib.build_harness("dev")
+    kp_pos = kp_var = 0
+    for p in (paths[:2] + paths2[:1]) if q else (paths + paths2):
+        kf = p + ".keypairs"
+        vlib.harness(hb, ["keypairs", p, kf])
+        t = vlib.tlc("Trace_KeyPairs", env={"TRACE": kf}, timeout=3000, xmx="3g")
+        if t.error or not t.stats("keypairs"):
+            raise vlib.ToolError("Trace_KeyPairs: " + (t.error or t.stdout[-1500:]))
+        kp_pos += t.stats("keypairs")[0]["positions"]
+        kp_var += t.stats("keypairs")[0]["variants"]
+        for d in t.viols("C03"):
+            det = d["detail"]
+            chk.violation("%s|%s|%s|%s" % (d["what"], det.get("fen"), det.get("a"), det.get("c")), d["what"], d,
+                          replay={"kind": "keypairs", "events": kf, "line": d.get("at")})
+    chk.cov["keypair_positions"] = kp_pos
+    chk.cov["keypair_variants"] = kp_var
     chk.cov.update({
         "evaluations": n1 + n2,
         "distinct_nontrivial": d1 + d2,
         "rule": "per event: carried key = from-scratch key (and, as CodeView, = XOR of the engine's own 838 component words "
                 "selected by the specification's FullKey); per trace file: events sorted by key, equal keys must have identical "
-                "(placement, side, rights, target); all 838 words pairwise distinct and non-zero. distinct = distinct keys per trace file, summed",
+                "(placement, side, rights, target); all 838 words pairwise distinct and non-zero; per position ~22 variants differing in exactly "
+                "one aspect (side, one right, target, one piece removed/recoloured/moved) must all have different keys. "
+                "distinct = distinct keys per trace file, summed",
     })
     chk.sample({"first_trace": paths[0], "events": n1 + n2})
     chk.assumptions += ["key collisions are sought only among the positions of one trace file (<= a few thousand)"]
